@@ -24,7 +24,7 @@ func init() {
 	Register(&Check{
 		ID:  "C11",
 		Run: runC11,
-		Rule: "every call sequence of length <= L (quick 3, thorough 4) over a per-document menu of (operation, variables) calls, on one parsed executable, for 17 documents rich in the suspected carriers " +
+		Rule: "every call sequence of length <= L (quick 3, thorough 4) over a per-document menu of (operation, variables) calls, on one parsed executable, for 19 documents rich in the suspected carriers " +
 			"(variables inside list / input-object literals, arguments out of order or omitted, several operations, a fragment spread under two container types, directives on variables, undeclared arguments, introspection fragments shared between operations, literals of another kind than the argument type) x RS/AS/FS; " +
 			"oracle: differential with a fresh parse per call + printed form unchanged. distinct = (document, strategy, sequence); non-trivial = sequence has >= 2 different calls",
 		Technique:      "explicit-state exploration of call histories on the real API with a fresh-parse differential oracle (no state merging)",
@@ -146,6 +146,12 @@ func c11AllDocs() []c11Doc {
 				}
 				return root
 			}},
+		// a named fragment whose selections report an error every time it is resolved (a required argument left out)
+		c11Doc{c11Base: c11Base{Name: "fragment-that-fails", Calls: []c11Call{{"A", nil}, {"B", nil}, {"A", map[string]interface{}{"x": 1}}}},
+			Text: "query A { a { ...F } i } query B { kids { ...F id } } fragment F on A { id echo(b: true) }"},
+		// a fragment that uses a variable, shared by an operation that defines the variable and one that does not
+		c11Doc{c11Base: c11Base{Name: "fragment-variable-defined-by-one-operation", Calls: []c11Call{{"A", map[string]interface{}{"n": "x"}}, {"B", nil}, {"A", nil}, {"C", map[string]interface{}{"n": 3}}}},
+			Text: "query A($n: String) { a { ...F } } query B { a { ...F } kids { ...F } } query C($n: Int) { a { pick(i: $n) ...F } } fragment F on A { tri(a: $n) pick(ss: [$n]) id }"},
 		c11Doc{c11Base: c11Base{Name: "literals-of-another-kind", Calls: []c11Call{{"", nil}, {"", map[string]interface{}{}}}}, Text: c11KindsText(), Own: true},
 	)
 }
@@ -276,9 +282,18 @@ func runC11(c *core.Ctx) {
 				}
 			}
 			rec()
+			// one long history: the first call 130 times over (more often than any depth or nesting limit), then every call once
+			idx++
+			if c.OwnsIdx(idx) && !c.Expired() {
+				long := make([]int, 130)
+				for i := range cd.Calls {
+					long = append(long, i)
+				}
+				c11Run(c, cd, nc, g, text, long)
+			}
 		}
 	}
-	c.R.Bound = fmt.Sprintf("all call sequences of length <= %d", maxLen)
+	c.R.Bound = fmt.Sprintf("all call sequences of length <= %d; one history of 130 repetitions per document and configuration", maxLen)
 	if !completed {
 		c.Cap("deadline reached")
 	}
